@@ -76,6 +76,44 @@ pub open spec fn spec_meaning(a: AggregateSpec, s: &CombinedSchema) -> Option<Ag
     }
 }
 
+
+// ---------------- eval_simple_expr: the per-row value of an aggregate's argument ---------------------------------------------
+#[verifier::external_body] pub struct ExecutorError { e: u8 }
+#[verifier::external_body] pub struct SqlMode { m: u8 }
+pub struct Row { pub values: Vec<SqlValue> }
+pub open spec fn cell_or_null(row: Row, idx: usize) -> SqlValue { if idx < row.values@.len() { row.values@[idx as int] } else { SqlValue::Null } }
+// row.get(idx).cloned().unwrap_or(SqlValue::Null)
+#[verifier::external_body]
+fn row_get_or_null(row: &Row, idx: usize) -> (r: SqlValue) ensures r == cell_or_null(*row, idx) { unimplemented!() }
+// schema.get_column_index(..).ok_or_else(|| ExecutorError::UnsupportedExpression(format!("Column not found: {}", column)))
+#[verifier::external_body]
+fn col_or_err(c: Option<usize>) -> (r: Result<usize, ExecutorError>) ensures c is Some ==> r == Ok::<usize, ExecutorError>(c.unwrap()), c is None ==> r is Err { unimplemented!() }
+#[verifier::external_body] fn unsupported() -> (r: ExecutorError) { unimplemented!() }
+pub uninterp spec fn binop_spec(l: SqlValue, op: BinaryOperator, r: SqlValue) -> Result<SqlValue, ExecutorError>;
+pub struct OperatorRegistry { pub o: u8 }
+impl OperatorRegistry {
+    // the scalar operators (decision tables: unit E-ops), default SQL mode
+    #[verifier::external_body]
+    pub fn eval_binary_op(l: &SqlValue, op: &BinaryOperator, r: &SqlValue, mode: SqlMode) -> (res: Result<SqlValue, ExecutorError>) ensures res == binop_spec(*l, *op, *r) { unimplemented!() }
+}
+#[verifier::external_body] fn default_mode() -> (r: SqlMode) { unimplemented!() }
+/// the value of a simple expression on a row: a column reads its cell (NULL when the row is too short), a literal is itself, arithmetic goes through the operator registry
+pub open spec fn simple_value(e: Expression, row: Row, s: &CombinedSchema) -> Result<SqlValue, ExecutorError>
+    decreases e
+{
+    match e {
+        Expression::ColumnRef { table, column } => match s.col(table, column) { Some(idx) => Ok(cell_or_null(row, idx)), None => Err(arbitrary()) },
+        Expression::Literal(v) => Ok(v),
+        Expression::BinaryOp { left, op, right } => match (simple_value(*left, row, s), simple_value(*right, row, s)) {
+            (Ok(l), Ok(r)) => binop_spec(l, op, r),
+            _ => Err(arbitrary()),
+        },
+        _ => Err(arbitrary()),
+    }
+}
+
+//@@ eval_simple_expr
+
 //@@ extract_aggregates
 
 //@@ is_simple_arithmetic_expr
@@ -106,6 +144,20 @@ ITEMS.update({
     'AggregateOp': dict(file=_F, path='enum AggregateOp', rewrites=[('re', r'^enum AggregateOp', '#[derive(PartialEq, Eq, Structural, Clone, Copy)]\npub enum AggregateOp', 1)]),
     'AggregateSource': dict(file=_F, path='enum AggregateSource'),
     'AggregateSpec': dict(file=_F, path='struct AggregateSpec'),
+
+    'eval_simple_expr': dict(
+        file=_F, path='fn eval_simple_expr', ret='res',
+        rewrites=[('re', r'schema\.get_column_index\(table\.as_deref\(\), column\)\s*\.ok_or_else\(\|\| ExecutorError::UnsupportedExpression\(\s*format!\((?:[^()]|\([^()]*\))*\)\s*\)\)\?', 'col_or_err(schema.get_column_index(table, column))?', 1),
+                  ('re', r'row\.get\(col_idx\)\.cloned\(\)\.unwrap_or\(SqlValue::Null\)', 'row_get_or_null(row, col_idx)', 1),
+                  ('re', r'use crate::evaluator::operators::OperatorRegistry;\s*', '', 1),
+                  ('re', r'vibesql_types::SqlMode::default\(\)', 'default_mode()', 1),
+                  ('re', r'Err\(ExecutorError::UnsupportedExpression\(\s*"[^"]*"\.to_string\(\)\s*\)\)', 'Err(unsupported())', 1)],
+        contract="""
+    ensures
+        (res is Ok) == (simple_value(*expr, *row, schema) is Ok),
+        res is Ok ==> res->Ok_0 == simple_value(*expr, *row, schema)->Ok_0,        // in particular: a column reference reads the row's cell, NULL included
+    decreases expr,
+"""),
     'extract_aggregates': dict(
         file=_F, path='fn extract_aggregates', ret='res',
         rewrites=[('re', r'for \(i, expr\) in exprs\.iter\(\)\.enumerate\(\) \{', 'let mut ei__: usize = 0; while ei__ < exprs.len() { let expr = &exprs[ei__]; ei__ = ei__ + 1;', 1),
@@ -135,6 +187,7 @@ ITEMS.update({
 })
 
 OBLIGATIONS = {
+    'eval_simple_expr': ['post:column_reads_its_cell_literal_is_itself_arithmetic_through_the_operator_registry', 'proof:termination_structural'],
     'extract_aggregates': ['post:every_planned_spec_means_what_the_sql_aggregate_means', 'safety:index_in_bounds', 'proof:loop_invariant'],
     'is_simple_arithmetic_expr': ['proof:termination_structural'],
 }
@@ -142,6 +195,7 @@ CANARIES = ['canary_plan']
 TRUSTED = list(_ast.AST_TRUSTED) + [
     'external_body Expression::clone (a copy); Str::to_uppercase as the uninterpreted function upper; the str match on the function name rewritten arm by arm to str_eq tests (no str patterns in this Verus)',
     'external_body CombinedSchema::get_column_index: name resolution as an uninterpreted function of (table, column); table.as_deref() dropped',
-    'spec_meaning encodes how the pipeline evaluates a spec (Column + COUNT = row count; Expression = non-NULL values of the expression): that compute_columnar_aggregate does so is proved in unit A-col; compute_expression_aggregate / eval_simple_expr (SUM(a*b), COUNT(col)) are NOT under contract',
+    'spec_meaning encodes how the pipeline evaluates a spec (Column + COUNT = row count; Expression = non-NULL values of the expression): that compute_columnar_aggregate does so is proved in unit A-col; compute_expression_aggregate is proved against the uninterpreted per-row value in unit A-col, and eval_simple_expr - that value - is under contract here',
+    'external_body Row (values), row_get_or_null, col_or_err, unsupported, default_mode, OperatorRegistry::eval_binary_op (uninterpreted binop_spec: unit E-ops), ExecutorError / SqlMode opaque; the ERROR VALUE of eval_simple_expr is not specified (only whether it errs)',
     'is_simple_arithmetic_expr: only termination and absence of panics are stated (which expressions the expression path accepts is a planning choice)',
 ]
